@@ -15,7 +15,7 @@ static const unsigned char KEYALT[3][16] = {{0x00, 0x11, 0x22, 0x33, 0x44, 0x55,
 static const unsigned char *key_of(int kk) { return KEYALT[kk % 3]; }
 
 // ---- base files (made by the reference, not by wencry) ------------------------------------------------
-struct Base { int cm, hm, T; size_t n; bool self = false; int kk = 0; }; // self: file written by wencry's own encrypt instead of the reference
+struct Base { int cm, hm, T; size_t n; bool self = false; int kk = 0; long ffat = -1; }; // ffat: file offset whose ciphertext byte is made 0xFF (CTR bases only) // self: file written by wencry's own encrypt instead of the reference
 static std::vector<size_t> base_sizes() { return {0, 5, 16, S - 1, S, 2 * S + 3}; }
 static std::vector<Base> bases(bool thorough, bool small) {
   std::vector<Base> v;
@@ -33,12 +33,27 @@ static std::vector<Base> bases(bool thorough, bool small) {
   // the tag is a hash over 64 + 20T + 16k bytes: its length mod 64 is 56 or 60 (two-block padding) only for T mod 4 in {2,3}
   // and one residue class of the block count k - thread counts the command line never uses
   if (!small) { v.push_back({1, 0, 3, 50}); v.push_back({2, 1, 6, 50}); v.push_back({3, 2, 7, 40}); v.push_back({4, 0, 2, 37}); }
+  // files longer than one refill of the hashing buffer whose byte right behind the refill boundary is 0xFF (and 0x00): a byte value
+  // that a look-ahead could mistake for "no more data"; the alterations behind it must still be refused
+  if (!small) {
+    long fill = 64 * (long)filebuffer64::HBUF_SZ;
+    Base a{2, 0, 1, (size_t)fill + 40}; a.ffat = 48 + fill; v.push_back(a);
+    Base b{2, 2, 2, (size_t)fill + 70}; b.ffat = 48 + fill; b.self = true; v.push_back(b);
+  }
   return v;
 }
-static Bytes plain_of(const Base &b) { return fo::content(0, b.n); }
+static Bytes plain_of(const Base &b) {
+  Bytes p = fo::content(0, b.n);
+  if (b.ffat >= 0 && b.cm == 2) { // CTR: ciphertext byte i depends on plaintext byte i only
+    Bytes f = ref::encrypt(p, KEYALT[b.kk % 3], b.cm, b.hm, fo::cstr_seed("seed"), b.T, S);
+    size_t bo = (size_t)b.ffat - (48 + 20 * (size_t)b.T);
+    if (bo < p.size() && (size_t)b.ffat < f.size()) p[bo] ^= f[b.ffat] ^ 0xff;
+  }
+  return p;
+}
 static Bytes file_of(const Base &b) {
   static std::map<std::string, Bytes> cache;
-  std::string k = std::to_string(b.cm) + "," + std::to_string(b.hm) + "," + std::to_string(b.T) + "," + std::to_string(b.n) + "," + std::to_string(b.self) + "," + std::to_string(b.kk);
+  std::string k = std::to_string(b.cm) + "," + std::to_string(b.hm) + "," + std::to_string(b.T) + "," + std::to_string(b.n) + "," + std::to_string(b.self) + "," + std::to_string(b.kk) + "," + std::to_string(b.ffat);
   auto it = cache.find(k);
   if (it != cache.end()) return it->second;
   Bytes f;
